@@ -5,7 +5,7 @@ use crate::{drive, report::Report, run::*, util::*, Ctx};
 use asca::RuleGroup;
 use serde_json::{json, Value};
 
-const RULE: &str = "1-8 named rule groups (0-2 generated rules each, incl. empty groups, comment-only lines and no-op rules) x phrases of 1-3 generated words: trace_changes must report strictly increasing group indices, exactly the groups whose application changed the phrase, each with the phrase as run(G0..Gi) returns it; the last state (or the input) must equal run(G); get_trace_string must print the same sequence with the groups' names; when a rule errors both calls must fail. Non-trivial = at least one group reported and at least one group not reported; distinct = distinct (groups, phrase).";
+const RULE: &str = "1-8 named rule groups (0-2 generated rules each, incl. empty groups, comment-only lines and no-op rules) x phrases of 1-3 generated words: trace_changes must report strictly increasing group indices, exactly the groups whose application changed the phrase (groups whose second rule undoes the first are planted on purpose; a reported group whose rendering is unchanged is looked up through the structural hook), each with the phrase as run(G0..Gi) returns it; the last state (or the input) must equal run(G); get_trace_string must print the same sequence with the groups' names; when a rule errors both calls must fail. Non-trivial = at least one group reported and at least one group not reported; distinct = distinct (groups, phrase).";
 
 pub struct Case { pub groups: Vec<Vec<String>>, pub phrase: String }
 
@@ -15,6 +15,13 @@ fn gen(r: &mut Rng) -> Case {
     let mut groups = Vec::new();
     for _ in 0..ng {
         let mut g = Vec::new();
+        // a group whose second rule undoes its first: the phrase is the same after the group, so it must not be reported
+        if r.chance(1, 6) {
+            let v = r.pick(&VOWS[..5]).to_string(); let c = r.pick(&CONS[..12]).to_string();
+            let pair: [String; 2] = match r.below(5) { 0 => [format!("{v} > ʙ"), format!("ʙ > {v}")], 1 => ["* > ʙ / _#".into(), "ʙ > * / _#".into()], 2 => [format!("{c} > ɥ / _V"), format!("ɥ > {c}")], 3 => ["% > [tone: 9999] / #_".into(), "%:[tone: 9999] > [tone: 0]".into()], _ => [format!("{v} > ɰ {v}"), "ɰ > *".into()] };
+            groups.push(pair.to_vec());
+            continue;
+        }
         for _ in 0..r.below(3) {
             g.push(match r.below(12) { 0 => ";; just a comment".to_string(), 1 => String::new(), 2 => "x > x".to_string(), _ => plain(&rand_rule(r, &cfg)) });
         }
@@ -70,8 +77,14 @@ pub fn judge(rep: &mut Report, c: &Case) {
         let changed = *before != states[i];
         if changed && !reported[i] { rep.violation("changing-group-not-reported".into(), || json!({"case": cj(), "group": i, "before": before, "after": states[i]})); return }
         if !changed && reported[i] {
-            // a group may change the structural word without changing its rendering (e.g. a feature the renderer cannot show): only
-            // a reported state that equals the previous one *structurally* would be wrong, which the public API cannot tell apart
+            // a group may change the structural word without changing its rendering (the renderer is not injective), which is a
+            // change and may be reported; the structural hook tells the two apart: reported although nothing changed = violation
+            let structurally_same = (|| {
+                let pr = compile_groups(&gs[..=i]).ok()?;
+                for wtxt in c.phrase.split(' ') { let w = parse_word(wtxt).ok()?; let st = apply_all(&pr, &w).ok()?; let before = if i == 0 { w.clone() } else { st[i - 1].clone() }; if st[i] != before { return Some(false) } }
+                Some(true)
+            })();
+            if structurally_same == Some(true) { rep.violation("reported-group-did-not-change-the-phrase".into(), || json!({"case": cj(), "group": i, "state": states[i]})); return }
             rep.obs("reported_group_with_identical_rendering", 1);
         }
     }
